@@ -61,20 +61,21 @@ func LoadWorld(path string) (*WorldJSON, error) {
 
 // ConcreteURI maps the abstract URI names of OPWorld to concrete strings.
 var ConcreteURI = map[string]string{
-	"ucw":     "https://cw.example.test/cb",
-	"ucw2":    "https://cw.example.test/cb2?keep=a%2Bb&k=1",
-	"ucx":     "https://cx.example.test/cb",
-	"ucp":     "com.example.cp:/oauth/cb",
-	"ucj":     "https://cj.example.test/cb",
-	"ucn":     "http://127.0.0.1:7777/cn/cb",
-	"evil":    "https://evil.example.test/cb",
-	"ucnEvil": "https://evil.example.test/cn/cb",
-	"plcw":    "https://cw.example.test/bye",
-	"plcx":    "https://cx.example.test/bye?x=1",
-	"plcj":    "https://cj.example.test/bye",
-	"ucwG":    "https://cw.example.test/cbs/one",
-	"plcwG":   "https://cw.example.test/byes/one",
-	"":        "",
+	"ucw":      "https://cw.example.test/cb",
+	"ucw2":     "https://cw.example.test/cb2?keep=a%2Bb&k=1",
+	"ucx":      "https://cx.example.test/cb",
+	"ucp":      "com.example.cp:/oauth/cb",
+	"ucj":      "https://cj.example.test/cb",
+	"ucn":      "http://127.0.0.1:7777/cn/cb",
+	"evil":     "https://evil.example.test/cb",
+	"ucnEvil":  "https://evil.example.test/cn/cb",
+	"plcw":     "https://cw.example.test/bye",
+	"plcx":     "https://cx.example.test/bye?x=1",
+	"plcj":     "https://cj.example.test/bye",
+	"plcxNear": "https://cx.example.test/bye.x=1",
+	"ucwG":     "https://cw.example.test/cbs/one",
+	"plcwG":    "https://cw.example.test/byes/one",
+	"":         "",
 }
 
 // ConcreteGlob: the glob pattern behind a globbed URI name.
